@@ -29,7 +29,7 @@ REPORT = ['pairs', 'evaluations', 'v2_to_v1', 'v1_to_v2', 'v2_values_using_addit
           'step:add_component', 'step:add_group', 'step:add_alternative', 'step:add_enum_item', 'step:widen', 'carved_out']
 FLOORS = {'quick': {'evaluations': 15000, 'v2_values_using_additions': 1500},
           'thorough': {'evaluations': 60000, 'v2_values_using_additions': 6000}}
-TIMEOUT = {'quick': 1800, 'thorough': 14000}
+TIMEOUT = {'quick': 1800, 'thorough': 5400}
 
 
 def shards(tier):
